@@ -72,8 +72,10 @@ def run(ctx):
         pass
     for c, T, r, m in res["obs"]:
         # the part of load that precedes the trust decision: when the verdict is a refusal nothing may have happened
-        if r["outcome"] == "untrusted" and (r["events"] or r["ledger"] or [x for x in r["new_modules"] if not x.startswith("encodings")]):
-            ofails.append((f"pre-audit-activity: load refused the archive but had already resolved {r['events'][:2]} / run {r['ledger'][:2]} / imported {r['new_modules'][:2]}",
+        missing = [x for x in (c.unt.get("ok") or []) if x not in (T or [])]
+        refused = r["outcome"] == "untrusted" or (r["outcome"] == "error" and missing)     # the audit cannot have passed
+        if refused and (r["events"] or r["ledger"] or [x for x in r["new_modules"] if not x.startswith("encodings")]):
+            ofails.append((f"pre-audit-activity: load (trusted={T!r}) refused the archive ({r['outcome']}) but had already resolved {r['events'][:2]} / run {r['ledger'][:2]} / imported {r['new_modules'][:2]}",
                            dict(kind="archive", schema=c.schema, members=sorted(c.members), trusted=T)))
     iocheck.conclude(ctx, lean_ok, res["mismatches"], ofails, "io.load/C02")
     iocheck.std_coverage(ctx, res, dict(inspect_calls=inspected, wall=round(time.time() - t0, 1)))
